@@ -9,6 +9,8 @@ pub mod c07;
 pub mod c08;
 pub mod c09;
 pub mod c11;
+pub mod c15;
+pub mod c16;
 pub mod c17;
 pub mod c18;
 pub mod c19;
@@ -18,7 +20,7 @@ pub mod hist;
 use crate::family::Family;
 
 pub fn all() -> Vec<&'static dyn Family> {
-    vec![&c02::C02, &c03::C03, &c04::C04, &c05::C05, &c06::C06, &c07::C07, &c08::C08, &c09::C09, &c11::C11, &c17::C17, &c18::C18, &c19::C19]
+    vec![&c02::C02, &c03::C03, &c04::C04, &c05::C05, &c06::C06, &c07::C07, &c08::C08, &c09::C09, &c11::C11, &c15::C15, &c16::C16, &c17::C17, &c18::C18, &c19::C19]
 }
 
 pub fn by_id(id: &str) -> Option<&'static dyn Family> {
